@@ -96,7 +96,7 @@ func c06QuerySeq(l2 *henv.L2, next uint64) error {
 
 func TestC06Rapid(t *testing.T) {
 	rec := evid.For("C06")
-	runRapid(t, 600, 15000, func(rt *rapid.T) {
+	runRapid(t, 600, 30000, func(rt *rapid.T) {
 		c := rec.Begin()
 		tc := newTwoChain(tcOpts{nExecutors: rapid.IntRange(1, 3).Draw(rt, "executors"), otherFirst: rapid.IntRange(0, 1).Draw(rt, "otherFirst"),
 			fromGenesis: rapid.Bool().Draw(rt, "fromGenesis")})
